@@ -92,21 +92,29 @@ class Elem(AbstractFiniteElement):
 class MixedElem(Elem):
     """A mixed element."""
 
-    def __init__(self, sub_elements):
+    def __init__(self, sub_elements, make_cell_sequence=False):
         subs = list(sub_elements)
-        cell = subs[0].cell
-        for e in subs:
-            assert e.cell == cell
+        if make_cell_sequence:
+            from ufl.cell import CellSequence
+
+            cell = CellSequence(tuple(e.cell for e in subs))
+        else:
+            cell = subs[0].cell
+            for e in subs:
+                assert e.cell == cell
         degree = max(e.embedded_superdegree for e in subs)
         rshape = (sum(e.reference_value_size for e in subs),)
         sob = max(e.sobolev_space for e in subs)
-        ident = all(isinstance(e.pullback, IdentityPullback) for e in subs)
+        ident = not make_cell_sequence and all(isinstance(e.pullback, IdentityPullback) for e in subs)
         Elem.__init__(self, "Mixed element", cell, degree, rshape, IdentityPullback(), sob)
         self._subs = subs
+        self._mcs = bool(make_cell_sequence)
         if not ident:
             self._pullback = MixedPullback(self)
 
     def __repr__(self):
+        if self._mcs:
+            return f"MixedElem({self._subs!r}, make_cell_sequence=True)"
         return f"MixedElem({self._subs!r})"
 
     def __str__(self):
